@@ -698,7 +698,7 @@ func c14KickHls(c *fw.Ctx) {
 }
 
 func c14Blacklist(c *fw.Ctx) {
-	conf := srv.Conf{Hls: true, HlsFragMs: 1000, HlsFragNum: 6, HlsDelThr: 6, Api: true, Flv: true}
+	conf := srv.Conf{Hls: true, HlsFragMs: 1000, HlsFragNum: 6, HlsDelThr: 6, Api: true, Flv: true, HttpDualStack: true}
 	s, stop := c14StartServer(c, conf, "bl")
 	if s == nil {
 		return
@@ -746,6 +746,43 @@ func c14Blacklist(c *fw.Ctx) {
 	}
 	c.Eval(1)
 	c.Cell("blacklist/served-after-expiry")
+	c14BlacklistV6(c, s, bg)
+}
+
+// c14BlacklistV6: the same rule for a client that arrives over IPv6 (the listener is dual-stack): the address is
+// black-listed in the form the API documents (a bare address, no brackets).
+func c14BlacklistV6(c *fw.Ctx, s *srv.Server, bg string) {
+	addr6 := fmt.Sprintf("[::1]:%d", s.Ports.Http)
+	get := func() (int, bool) {
+		st, _, body, err := srv.HttpGet(addr6, "/hls/"+bg+".m3u8", 3*time.Second)
+		if err != nil {
+			return 0, false
+		}
+		return st, strings.Contains(string(body), "#EXTM3U")
+	}
+	if _, ok := get(); !ok {
+		c.Count("ipv6_not_available", 1)
+		return // no IPv6 loopback here, or the listener is not reachable over it: nothing to judge
+	}
+	t0 := time.Now()
+	srv.HttpPostJson(s.ApiAddr(), "/api/ctrl/add_ip_blacklist", `{"ip":"::1","duration_sec":2}`, 3*time.Second)
+	for time.Since(t0) < 900*time.Millisecond {
+		st, served := get()
+		if time.Since(t0) >= 900*time.Millisecond {
+			break
+		}
+		c.Eval(1)
+		if served || st == 200 {
+			c.Violate("blacklist/served-before-expiry/ipv6", fmt.Sprintf("client ::1 got the playlist %.2f s after add_ip_blacklist(\"::1\", 2 s) (status %d)", time.Since(t0).Seconds(), st), nil)
+			return
+		}
+		time.Sleep(100 * time.Millisecond)
+	}
+	c.Cell("blacklist/blocked-before-expiry/ipv6")
+	// the IPv4 client is not affected by that entry
+	if st, _, body, err := srv.HttpGet(s.HttpAddr(), "/hls/"+bg+".m3u8", 3*time.Second); time.Since(t0) < 1800*time.Millisecond && (err != nil || st != 200 || !strings.Contains(string(body), "#EXTM3U")) {
+		c.Violate("blacklist/other-address-refused", fmt.Sprintf("127.0.0.1 was refused the playlist (status %d, err %v) while only ::1 is black-listed", st, err), nil)
+	}
 }
 
 // c14BlacklistReadd: an address that is black-listed again while still listed. Whatever the merge
